@@ -1,7 +1,7 @@
 ---------------------------- MODULE Trace_HydSet ----------------------------
 (* Code -> spec: the complete hydrogen set of one conformation of one run (C17): every hydrogen - supplied with the      *)
 (* input and kept, or built by the program - is bonded to exactly one heavy atom, and no two hydrogens coincide           *)
-(* (closer than MinSep milli-Angstrom).  R.h[k] = <<x, y, z, number of bonded heavy atoms>> in milli-Angstrom.            *)
+(* (closer than MinSep milli-Angstrom).  R.h[k] = <<x, y, z, bonded heavy atoms, bonded hydrogens>> in milli-Angstrom.   *)
 EXTENDS Integers, Sequences, Json, IOUtils
 CONSTANTS MinSep
 Trace == JsonDeserialize(IOEnv.TRACE_FILE)
@@ -15,6 +15,7 @@ Abs(x) == IF x < 0 THEN -x ELSE x
 Close(a, b) == /\ Abs(a[1] - b[1]) < MinSep /\ Abs(a[2] - b[2]) < MinSep /\ Abs(a[3] - b[3]) < MinSep
                /\ (a[1] - b[1]) * (a[1] - b[1]) + (a[2] - b[2]) * (a[2] - b[2]) + (a[3] - b[3]) * (a[3] - b[3]) < MinSep * MinSep
 H_OneParent == \A k \in 1..Len(R.h) : R.h[k][4] = 1
+H_NoHH == \A k \in 1..Len(R.h) : R.h[k][5] = 0          \* a hydrogen is never bonded to a hydrogen
 H_Separated == \A j, k \in 1..Len(R.h) : j < k => ~Close(R.h[j], R.h[k])
 (* with supplied hydrogens kept, nothing is built on top of them: the number of hydrogens is the number supplied *)
 H_NoneAdded == R.supplied >= 0 => Len(R.h) = R.supplied
